@@ -224,6 +224,17 @@ func (e *Executor) getTaskFunc(
 			logger.Debugf("%s: loaded target result %s", target.Label, formatTargetResultForDebug(targetResult))
 		}
 
+		if e.loadOutputsMode == config.LoadOutputsMinimal && len(target.OutputChecks) > 0 {
+			// Output checks are shell commands: like the target's command they may read the outputs
+			// (and use the bin tools) of the direct dependencies. With load_outputs=all those are in
+			// the workspace by now, so materialise them here as well; otherwise a check that passes
+			// under load_outputs=all fails and the target is executed although it is a cache hit.
+			update(worker.Status(fmt.Sprintf("%s: loading dependency outputs for output checks (load_outputs=minimal).", target.Label)))
+			if loadDepsErr := e.LoadDependencyOutputs(ctx, target, update); loadDepsErr != nil {
+				return dag.CacheMiss, fmt.Errorf("failed to load dependency outputs for target %s: %w", target.Label, loadDepsErr)
+			}
+		}
+
 		outputCheckErr := runOutputChecks(ctx, target, binToolPaths, outputIdentifiers)
 		if outputCheckErr != nil {
 			logger.Debugf("running target due to output check error: %v", outputCheckErr)
